@@ -108,6 +108,13 @@ func (t *ProcessorTask) Do(ctx context.Context, b *Batch) error {
 	}
 	t.metrics.Observe(len(recsOut), start)
 
+	if len(recsOut) > len(recsIn) {
+		// Marking the extra results would address records past the end of the
+		// batch (an index-out-of-range panic that takes the process down) or,
+		// with filtered records in the batch, silently land on other records.
+		return cerrors.Errorf("processor returned %d records for %d input records", len(recsOut), len(recsIn))
+	}
+
 	if len(recsIn) > len(recsOut) {
 		// Processor skipped some records, append empty records, so that we can
 		// mark them to be retried.
